@@ -288,6 +288,13 @@ def l2_gen(seed, families, big):
             ops.append(["arg", "def", n, b, r.below(2)])
         else:
             ops.append(["arg", "def", n, body(n), r.below(2)])
+    if r.below(4) == 0:
+        for _ in range(r.pick([1, 2, 4])):
+            n = r.pick(names)
+            if r.below(3) == 0:
+                ops.append(["inc", "undef", n, "", r.below(2)])
+            else:
+                ops.append(["inc", "def", n, body(n), r.below(2)])
     nops = r.pick([3, 5, 8, 12, 20, 40, 80]) if not big else r.range(300, 900)
     wdef, wundef, wprobe = r.pick([(5, 3, 3), (4, 4, 2), (6, 2, 3), (3, 4, 4)])
     recent_undef = []
@@ -325,8 +332,20 @@ def l2_render(plan):
     for k in PREDEF_DYNAMIC:
         model[k] = ("dyn", None)   # what they expand to is not modelled; that they are defined, and stop being special once redefined, is
     args, src, exp = [], ["#define CAT_(a,b) a##b", "#define XCAT_(a,b) CAT_(a,b)"], []
+    inc = [[], []]   # up to two files given with -include: processed after every -D / -U, in command-line order, before the source
     pid = 0
-    for where, kind, n, b, sep in plan["ops"]:
+    allops = plan["ops"]
+    ordered = [o for o in allops if o[0] == "arg"] + [o for o in allops if o[0] == "inc" and o[4] % 2 == 0] + \
+              [o for o in allops if o[0] == "inc" and o[4] % 2 == 1] + [o for o in allops if o[0] == "src"]
+    for where, kind, n, b, sep in ordered:
+        if where == "inc":
+            # the model applies the -include files where the compiler does: after the command-line definitions, file 0 then file 1
+            inc[sep % 2].append("#define %s %s" % (n, b) if kind == "def" else "#undef %s" % n)
+            if kind == "def":
+                model[n] = ("obj", b)
+            else:
+                model.pop(n, None)
+            continue
         FSHAPE = {"fdef": ("(x)", " x", "fn1"), "fdef0": ("()", "", "fn0"), "fdef2": ("(x,y)", " y x", "fn2"), "fdefv": ("(x,...)", " __VA_ARGS__ x", "fnv"), "fdefn": ("(args...)", " args", "fnn")}
         if where == "arg" and kind in FSHAPE:
             ps, tail, tag = FSHAPE[kind]
@@ -428,7 +447,7 @@ def l2_render(plan):
                 else:
                     e = n + call
                 exp.append('"C" %d %s ;' % (pid, e))
-    return args, "\n".join(src) + "\n", exp
+    return args, "\n".join(src) + "\n", exp, ["\n".join(x) + "\n" if x else None for x in inc]
 
 
 def norm(line):
@@ -437,10 +456,25 @@ def norm(line):
 
 def l2_exec(cc, sdir, wid, plan):
     """returns (class, detail) ; class None when the output equals the model's"""
-    args, src, exp = l2_render(plan)
+    args, src, exp, incs = l2_render(plan)
     f = os.path.join(sdir, "l2.%d.c" % wid)
     with open(f, "w", encoding="utf-8") as fh:
         fh.write(src)
+    args = list(args)
+    for k, t in enumerate(incs):
+        if t is not None:
+            fi = os.path.join(sdir, "l2.%d.inc%d.h" % (wid, k))
+            with open(fi, "w", encoding="utf-8") as fh:
+                fh.write(t)
+            pos = Rng(len(src) * 7 + k).below(len(args) + 1)   # anywhere among the other options (never inside `-D NAME`)
+            while pos > 0 and args[pos - 1] in ("-D", "-U", "-include"):
+                pos -= 1
+            args[pos:pos] = ["-include", fi]
+    # (two -include options keep their relative order: file 0 is inserted first and file 1 never before it)
+    if incs[0] is not None and incs[1] is not None:
+        i0, i1 = args.index(os.path.join(sdir, "l2.%d.inc0.h" % wid)), args.index(os.path.join(sdir, "l2.%d.inc1.h" % wid))
+        if i1 < i0:
+            args[i0], args[i1] = args[i1], args[i0]
     try:
         p = subprocess.run([cc, "-E"] + args + [f], stdout=subprocess.PIPE, stderr=subprocess.PIPE, timeout=60)
     except subprocess.TimeoutExpired:
@@ -524,7 +558,7 @@ def l2_worker(cc, sdir, wid, master, start, step, total, families, big_every, de
             res["nontrivial"] += 1
             res["hashes"].add(sha(json.dumps(plan["ops"])))
         if i < 2 and not big:
-            a, s, e = l2_render(plan)
+            a, s, e, _ = l2_render(plan)
             res["samples"].append({"level": 2, "seed": seed, "argv": a, "source_head": s.splitlines()[:14], "probes": len(e)})
         if cls:
             c2, _ = l2_exec(cc, sdir, wid, plan)  # gate 1: same plan again, same class
@@ -561,7 +595,8 @@ def level2(cc, sdir, master, total, families, big_every, rep, stats, seconds):
             if plan is None:
                 stats["l2_unminimised_violations"] = stats.get("l2_unminimised_violations", 0) + 1
                 continue
-            a, s, e = l2_render(plan)
+            a, s, e, incs = l2_render(plan)
+            s = "".join("/* -include file %d */\n%s" % (k, t) for k, t in enumerate(incs) if t) + s
             rp = save_replay(PROP, seed, {"engine": "histsim-l2", "property": PROP, "class": cls, "seed": seed,
                                           "names": plan["names"], "ops": plan["ops"], "argv": a, "source": s, "expected": e,
                                           "minimisation_executions": nx})
